@@ -96,7 +96,11 @@ def modify (l : List EnvCfg) (id : Nat) (f : EnvCfg → EnvCfg) : List EnvCfg :=
   | c :: cs, n + 1 => c :: modify cs n f
 
 def step (p : Proc) : Op → Proc × Option Used
-  | .newEnv cfg => ({ p with envs := p.envs ++ [cfg] }, none)
+  | .newEnv cfg =>
+    -- `Environment.__init__` registers the tags; `UnlessTag`, `CaseTag` and `IfChangedTag` call
+    -- `get_parser(self.env)` in their constructors, so creating an environment already touches the cache
+    ({ p with envs := p.envs ++ [cfg],
+              parsers := (call parserKeyEq (fun k => k.id) p.parsers ⟨p.envs.length, (cfg.delims, cfg.mode)⟩).1 }, none)
   | .setMode id m => ({ p with envs := modify p.envs id fun c => { c with mode := m } }, none)
   | .setTags id t => ({ p with envs := modify p.envs id fun c => { c with tags := t } }, none)
   | .setFilters id t => ({ p with envs := modify p.envs id fun c => { c with filters := t } }, none)
